@@ -52,9 +52,10 @@ def gen_body(rng, maxlen, depth, fail_p, raise_p, end_p):
     for _ in range(n):
         r = rng.random()
         i = next(_ctr) % 300
-        if depth > 0 and r < 0.15:
+        nest_p = 0.15 if depth > 0 else 0.0
+        if r < nest_p:
             b.append({"NNest": [gen_body(rng, max(1, maxlen // 2), depth - 1, fail_p, raise_p, end_p)]})
-        elif r < 0.15 + raise_p:
+        elif r < nest_p + raise_p:
             b.append({"NRaise": [700 + i]})
         elif r < 0.58:
             b.append(_await(rng, i, fail_p, end_p))
@@ -86,13 +87,13 @@ def _case(body, ops, **meta):
     return {"body": body, "ops": ops, "meta": meta, "tree": [body, ops]}
 
 
-def exhaustive(rng, maxlen):
+def exhaustive(rng, maxlen, reps=1):
     cs = []
     tails = [[], ["OList"], [{"OTake": [1]}, "OList"], ["ONext", "OCompute", "OList"], [{"OTake": [2]}, {"OTake": [0]}, "OList"],
              ["ONext", "ONext"]]
     for L in range(0, maxlen + 1):
         for mask in itertools.product("av", repeat=L):
-            for n in range(0, 10):
+            for n in list(range(0, 10)) * reps:
                 body = []
                 for i, ch in enumerate(mask):
                     if ch == "a":
@@ -110,8 +111,8 @@ def exhaustive(rng, maxlen):
 
 def gen_cases(rng, tier):
     quick = tier == "quick"
-    cs = exhaustive(rng, 6 if quick else 8)
-    nrand = 500 if quick else 6000
+    cs = exhaustive(rng, 6, 1) if quick else exhaustive(rng, 8, 2)
+    nrand = 500 if quick else 20000
     for _ in range(nrand):
         r = rng.random()
         malformed = rng.random() < 0.25
